@@ -1,4 +1,5 @@
 import HapModel.Drv.C01
+import HapModel.Drv.C05
 import HapModel.Drv.C12
 import HapModel.Drv.C13
 import HapModel.Drv.C14
@@ -15,6 +16,10 @@ def dispatch1 (op : String) (j : Json) : R Json :=
   | "simGen" => hSimGen j
   | "qc" => hQC j
   | "objRun" => hObjRun j
+  | "bpQuery" => hBpQuery j
+  | "bpEncode" => hBpEncode j
+  | "bpParse" => hBpParse j
+  | "bpRender" => hBpRender j
   | _ => throw s!"unknown op {op}"
 
 /-- {"op":"batch","reqs":[…]} → {"resps":[…]} -/
